@@ -39,7 +39,7 @@ impl<'a> RegExp<'a> {
         let mut dfa = Dfa::from(&grapheme_clusters, true, config);
         let mut ast = Expression::from(dfa, config);
 
-        if config.is_start_anchor_disabled && config.is_end_anchor_disabled {
+        if config.is_end_anchor_disabled {
             let mut regex = Self::convert_expr_to_regex(&ast, config);
 
             if config.is_verbose_mode_enabled {
@@ -108,7 +108,12 @@ impl<'a> RegExp<'a> {
     fn regex_matches_all_test_cases(regex: &Regex, test_cases: &[String]) -> bool {
         test_cases
             .iter()
-            .all(|test_case| regex.find_iter(test_case).count() == 1)
+            .all(|test_case| {
+                regex.find_iter(test_case).count() == 1
+                    && regex
+                        .find(test_case)
+                        .map_or(false, |m| m.start() == 0 && m.end() == test_case.len())
+            })
     }
 
     fn sort(test_cases: &mut Vec<String>) {
